@@ -36,6 +36,7 @@ Definition TyTarget := TyOther 372.
 Definition TySource := TyOther 373.
 Definition TyMaterialized := TyOther 374.
 Definition TyReturning := TyOther 379.
+Definition TyGroupingSets := TyOther 390.
 Definition TyRollup := TyOther 391.
 Definition TyCube := TyOther 392.
 Definition TyGrouping := TyOther 393.
@@ -305,14 +306,14 @@ Definition alias_ok (a : malias) : bool := match a with None => true | Some (_, 
 Definition table_ok (t : mtable) : bool :=
   negb (Nat.eqb (List.length (tb_path t)) 0) && forallb name_ok (tb_path t) && alias_ok (tb_alias t).
 Definition is_column_ref (e : mexpr) : bool := match e with MIdent _ _ | MQIdent _ _ => true | _ => false end.
-(* an alias without AS directly after a bare column reference is the listed known finding
-   `implicit-alias-bare-column` (pinned by the project's tests): outside the surface *)
 Definition item_ok (it : mitem) : bool :=
-  match it with
-  | IStar => true
-  | IExpr e a => ref_expr e && alias_ok a
-                 && match a with Some (false, _) => negb (is_column_ref e) | _ => true end
-  end.
+  match it with IStar => true | IExpr e a => ref_expr e && alias_ok a end.
+(* an alias without AS directly after a bare column reference is the listed known finding
+   `implicit-alias-bare-column` (pinned by the project's tests): the tree as it is handles the statements without
+   that shape *)
+Definition bare_alias_free (it : mitem) : bool :=
+  match it with IExpr e (Some (false, _)) => negb (is_column_ref e) | _ => true end.
+Definition select_bare_alias_free (s : mselect) : bool := forallb bare_alias_free (s_items s).
 Definition join_ok (j : mjoin) : bool :=
   table_ok (j_table j)
   && negb (j_nat j && match j_side j with SCross => true | _ => false end)
@@ -350,23 +351,41 @@ Fixpoint query_ok (q : mquery) : bool :=
 
 (* what may follow a SELECT / query: end of input, `;`, `)`, a set operator *)
 Definition sel_stop (t : token) : bool :=
-  isT t TyEOF || isT t TySemicolon || isT t TyRParen || isT t TyUnion || isT t TyExcept || isT t TyIntersect.
+  (isT t TyEOF || isT t TySemicolon || isT t TyRParen || isT t TyUnion || isT t TyExcept || isT t TyIntersect)
+  && stops 0 t.
 Definition sel_follow (stop : list token) : Prop := exists t rest, stop = t :: rest /\ sel_stop t = true.
 (* what may follow a whole query expression: not a set operator *)
-Definition query_stop (t : token) : bool := isT t TyEOF || isT t TySemicolon || isT t TyRParen.
+Definition query_stop (t : token) : bool := (isT t TyEOF || isT t TySemicolon || isT t TyRParen) && stops 0 t.
 Definition query_follow (stop : list token) : Prop := exists t rest, stop = t :: rest /\ query_stop t = true.
 
-(* nesting used by the expressions of a SELECT (the parser's depth counter rises by one for the SELECT itself) *)
-Definition maxl (l : list nat) : nat := fold_right Nat.max 0 l.
-Fixpoint idx_map {A B} (f : nat -> A -> B) (i : nat) (l : list A) : list B :=
-  match l with [] => [] | x :: tl => f i x :: idx_map f (S i) tl end.
+(* nesting used by the expressions of a SELECT: the largest [pdepth] of its expressions under the choices [sr]
+   (the parser's depth counter rises by one for the SELECT itself and by one on entering each expression) *)
+Fixpoint exprs_depth (sr : srho) (c : nat) (i : nat) (l : list mexpr) : nat :=
+  match l with [] => 0 | e :: tl => Nat.max (pdepth 0 (sr c i) e) (exprs_depth sr c (S i) tl) end.
+Fixpoint items_depth (sr : srho) (i : nat) (l : list mitem) : nat :=
+  match l with
+  | [] => 0
+  | it :: tl => Nat.max (match it with IStar => 0 | IExpr e _ => pdepth 0 (sr cl_items i) e end) (items_depth sr (S i) tl)
+  end.
+Fixpoint joins_depth (sr : srho) (i : nat) (l : list mjoin) : nat :=
+  match l with
+  | [] => 0
+  | j :: tl => Nat.max (match j_cond j with Some (JOn e) => pdepth 0 (sr cl_on i) e | _ => 0 end) (joins_depth sr (S i) tl)
+  end.
+Fixpoint orders_depth (sr : srho) (i : nat) (l : list morder) : nat :=
+  match l with [] => 0 | o :: tl => Nat.max (pdepth 0 (sr cl_order i) (o_expr o)) (orders_depth sr (S i) tl) end.
+Definition opt_depth (r : rho) (o : option mexpr) : nat := match o with None => 0 | Some e => pdepth 0 r e end.
 Definition select_depth (sr : srho) (s : mselect) : nat :=
-  maxl (idx_map (fun i it => match it with IStar => 0 | IExpr e _ => pdepth 0 (sr cl_items i) e end) 0 (s_items s)
-        ++ idx_map (fun i j => match j_cond j with Some (JOn e) => pdepth 0 (sr cl_on i) e | _ => 0 end) 0 (s_joins s)
-        ++ [match s_where s with Some e => pdepth 0 (sr cl_where 0) e | None => 0 end]
-        ++ idx_map (fun i e => pdepth 0 (sr cl_group i) e) 0 (s_group s)
-        ++ [match s_having s with Some e => pdepth 0 (sr cl_having 0) e | None => 0 end]
-        ++ idx_map (fun i o => pdepth 0 (sr cl_order i) (o_expr o)) 0 (s_order s)).
+  Nat.max (items_depth sr 0 (s_items s))
+    (Nat.max (joins_depth sr 0 (s_joins s))
+       (Nat.max (opt_depth (sr cl_where 0) (s_where s))
+          (Nat.max (exprs_depth sr cl_group 0 (s_group s))
+             (Nat.max (opt_depth (sr cl_having 0) (s_having s)) (orders_depth sr 0 (s_order s)))))).
+Fixpoint query_depth (sr : srho) (base : nat) (q : mquery) : nat :=
+  match q with
+  | QSelect s => select_depth (shift sr base) s
+  | QSetOp l _ _ r => Nat.max (query_depth sr base l) (select_depth (shift sr (base + qsize l)) r)
+  end.
 
 (* non-vacuity *)
 Definition ex_select : mselect :=
